@@ -21,7 +21,23 @@ using namespace vh;
 using sandbox_t = rlbox::rlbox_sandbox<Sbx>;
 #define life_static_lookup(f) reinterpret_cast<void*>(&guest_##f)
 
-static int g_ran = -1;   // which application function ran last
+static thread_local int g_ran = -1;   // which application function ran last
+// multi-threaded use (mt.cpp): the thread's index selects disjoint fixed region bases; a hook runs between operations
+static thread_local int g_thread = -1;
+static void (*g_between_ops)() = nullptr;
+#ifdef LIFE_NO_FIXED_BASE
+// (ThreadSanitizer builds cannot map at fixed addresses: the regions go wherever mmap puts them)
+static thread_local uintptr_t g_actual_base[3] = { 0, 0, 0 };
+static char g_nowhere[64];
+#endif
+static uintptr_t slot_base_of(int i)
+{
+#ifdef LIFE_NO_FIXED_BASE
+  return g_actual_base[i] ? g_actual_base[i] : reinterpret_cast<uintptr_t>(g_nowhere);
+#endif
+  if (g_thread < 0) return (uintptr_t(i) + 1) << 44;
+  return (uintptr_t(1) << 44) + (uintptr_t(3 * g_thread + i) << 33);
+}
 template<int K>
 static void cbf(sandbox_t&) { g_ran = K; }
 using owner_t = rlbox::sandbox_callback<void (*)(), Sbx>;
@@ -55,7 +71,7 @@ static void guest_callcb(Sbx::T_PointerType cb) { Sbx::guest_call_callback<void>
 void callslot(unsigned);
 static void guest_callslot(uint32_t slot) { Sbx::guest_call_callback<void>(Sbx::CB_BASE + slot); }
 static const rlbox::verif_lib g_lib = { { "f5", (void*)0x1005 }, { "f6", (void*)0x1006 }, { "f7", (void*)0x1007 } };
-static char g_namebuf[8];   // a caller-owned name buffer that is reused for every by-name lookup ("lb"/"ilb")
+static thread_local char g_namebuf[8];   // a caller-owned name buffer that is reused for every by-name lookup ("lb"/"ilb")
 #endif
 
 static std::string run_case(const toks_t& t)
@@ -73,6 +89,7 @@ static std::string run_case(const toks_t& t)
       toks_t o = split(t[n], ':');
       const std::string& c = o[0];
       if (!out.empty()) out += ",";
+      if (g_between_ops) g_between_ops();
       try {
         if (c == "c") {
           int i = std::stoi(o[1]);
@@ -80,9 +97,15 @@ static std::string run_case(const toks_t& t)
 #ifdef LIFE_NOOP
           bool r = sb[i]->create_sandbox();
 #else
-          Sbx::fixed_base_hint = (uintptr_t(i) + 1) << 44;
+#  ifdef LIFE_NO_FIXED_BASE
+          Sbx::fixed_base_hint = 0;
+          bool r = sb[i]->create_sandbox(&g_lib, !ok);
+          if (r) g_actual_base[i] = sb[i]->get_sandbox_impl()->region_base();
+#  else
+          Sbx::fixed_base_hint = slot_base_of(i);
           bool r = sb[i]->create_sandbox(&g_lib, !ok);
           Sbx::fixed_base_hint = 0;
+#  endif
 #endif
           if (r) created[i] = true;
           out += std::string("c=") + (r ? "1" : "0");
@@ -90,6 +113,9 @@ static std::string run_case(const toks_t& t)
           int i = std::stoi(o[1]);
           sb[i]->destroy_sandbox();
           created[i] = false;
+#if defined(LIFE_NO_FIXED_BASE) && !defined(LIFE_NOOP)
+          g_actual_base[i] = 0;
+#endif
           out += "d=ok";
         } else if (c == "m") {
           auto p = sb[std::stoi(o[1])]->malloc_in_sandbox<int>();
@@ -189,9 +215,10 @@ static std::string run_case(const toks_t& t)
           out += "x=skip";
 #else
           int i = std::stoi(o[1]);
-          uintptr_t ex = ((uintptr_t(i) + 1) << 44) + std::stoul(o[2]);
+          uintptr_t ex = slot_base_of(i) + std::stoul(o[2]);
           auto p = sandbox_t::get_unsandboxed_pointer_no_ctx<char*>(64, reinterpret_cast<const void*>(ex));
-          out += "x=" + std::to_string(reinterpret_cast<uintptr_t>(p));
+          // reported relative to the canonical base of object i, so that the outcome does not depend on the thread
+          out += "x=" + std::to_string(reinterpret_cast<uintptr_t>(p) - slot_base_of(i) + ((uintptr_t(i) + 1) << 44));
 #endif
         } else {
           out += "HARNESS-ERROR-" + c;
@@ -210,4 +237,6 @@ static std::string run_case(const toks_t& t)
   return "SEQ " + out;
 }
 
+#ifndef LIFE_NO_MAIN
 int main(int argc, char** argv) { return case_loop(argc, argv, run_case); }
+#endif
